@@ -54,9 +54,7 @@ class FaultAt(ioproxy.NullMonitor):
 
 
 def wrap_handle(hub, s):
-    st = s.db.storage
-    if not isinstance(st._handle, ioproxy.FileProxy):
-        st._handle = ioproxy.FileProxy(hub, st._handle, "primary")
+    ioproxy.wrap_open_handles(hub, s.db.storage)
 
 
 def run_with_monitor(s, op, monitor):
@@ -93,7 +91,9 @@ def continue_after_fault(res, t, base, rep, feats, own, rng, origin):
         op = gen_write_op(rng, t.model, prof)
         with quiet_stdout():
             out = t.do(op)
-        if out.exc is not None:
+        if out.exc is not None and type(out.exc).__name__ in (out.exp_exc or ()):
+            res.count(f"{origin}.continuation_op_raised_as_documented")  # e.g. a batch with a non-Point element: judged below
+        elif out.exc is not None:
             res.count(f"{origin}.continuation_op_raised")
             if not isinstance(out.exc, (OSError, ValueError)):
                 res.violate(Violation("C13", "later-operation-fails-with-unexpected-exception", dict(base, later_op=op["op"], exc=f"{type(out.exc).__name__}: {out.exc}"[:200]), replay=rep, features=feats))
